@@ -77,17 +77,18 @@ Definition one (code : Z) : list rline := [(code, false)].
 
 Record scfg := { pol : pcfg; max_rcpt : Z; max_bytes : Z; tls_enabled : bool }.
 
-Record session := { st : sstate; from : option origin; rcpts : list recipient; helo : str }.
+(** [tls]: the session's tlsState is set (STARTTLS was accepted on this connection). *)
+Record session := { st : sstate; from : option origin; rcpts : list recipient; helo : str; tls : bool }.
 
-Definition init : session := {| st := GREET; from := None; rcpts := []; helo := [] |}.
+Definition init : session := {| st := GREET; from := None; rcpts := []; helo := []; tls := false |}.
 
 Definition set_st (s : session) (x : sstate) : session :=
-  {| st := x; from := from s; rcpts := rcpts s; helo := helo s |}.
+  {| st := x; from := from s; rcpts := rcpts s; helo := helo s; tls := tls s |}.
 
 (** Session.reset (after fix 3e63a74: a reset before the greeting stays in GREET). *)
 Definition reset (s : session) : session :=
   {| st := match st s with GREET => GREET | _ => READY end;
-     from := None; rcpts := []; helo := helo s |}.
+     from := None; rcpts := []; helo := helo s; tls := tls s |}.
 
 Inductive stepres :=
   | Ok (s' : session) (r : list rline) (d : list delivery)
@@ -117,21 +118,22 @@ Definition deliveries_for (c : scfg) (o : origin) (rs : list recipient) (hl : st
           (match ov_mailboxes ov with Some l => l | None => map r_mailbox rs end)
   end.
 
-Definition ehlo_reply (c : scfg) : list rline :=
+(** STARTTLS is offered while TLS is configured and not yet agreed upon on this connection. *)
+Definition ehlo_reply (c : scfg) (s : session) : list rline :=
   [(250%Z, true); (250%Z, true); (250%Z, true)] ++
-  (if tls_enabled c then [(250%Z, true)] else []) ++ [(250%Z, false)].
+  (if tls_enabled c && negb (tls s) then [(250%Z, true)] else []) ++ [(250%Z, false)].
 
 Definition step_greet (c : scfg) (s : session) (l : pline) : stepres :=
   match l with
   | Helo d =>
       match d with
       | [] => Ok s (one 501) []
-      | _ => Ok {| st := READY; from := from s; rcpts := rcpts s; helo := d |} (one 250) []
+      | _ => Ok {| st := READY; from := from s; rcpts := rcpts s; helo := d; tls := tls s |} (one 250) []
       end
   | Ehlo d =>
       match d with
       | [] => Ok s (one 501) []
-      | _ => Ok {| st := READY; from := from s; rcpts := rcpts s; helo := d |} (ehlo_reply c) []
+      | _ => Ok {| st := READY; from := from s; rcpts := rcpts s; helo := d; tls := tls s |} (ehlo_reply c s) []
       end
   | _ => Ok s (one 503) []
   end.
@@ -154,7 +156,7 @@ Definition step_mail_from (c : scfg) (s : session) (p : mail_parse) (h : hook_an
             match h with
             | Deny code _ => Ok s (one code) []
             | _ =>
-                let s1 := {| st := st s; from := Some og; rcpts := rcpts s; helo := helo s |} in
+                let s1 := {| st := st s; from := Some og; rcpts := rcpts s; helo := helo s; tls := tls s |} in
                 let deferred := match h with Allow => false | _ => true end in
                 if deferred && negb (should_accept_origin (pol c) (o_domain og))
                 then Ok s1 (one 501) []
@@ -166,7 +168,15 @@ Definition step_mail_from (c : scfg) (s : session) (p : mail_parse) (h : hook_an
 
 Definition step_ready (c : scfg) (s : session) (l : pline) : stepres :=
   match l with
-  | Starttls => if tls_enabled c then Misfit (* TLS handshake: not modelled *) else Ok s (one 454) []
+  | Starttls =>
+      (* "454 TLS unavailable" / "454 A TLS session already agreed upon" / "220 STARTTLS", then the connection is
+         wrapped (the handshake itself is the transport's: Model/SmtpWire.v) and the state is GREET again; the
+         envelope is NOT reset. In the code remoteDomain keeps its value too, but nothing reads it in GREET and the
+         HELO / EHLO that must follow overwrites it: the model clears it, so that "GREET => no name" stays an
+         invariant and the client-side specification [entitled] can forget the name at the 220 *)
+      if negb (tls_enabled c) then Ok s (one 454) []
+      else if tls s then Ok s (one 454) []
+      else Ok {| st := GREET; from := from s; rcpts := rcpts s; helo := []; tls := true |} (one 220) []
   | Auth APlain2 => Ok s (one 235) []
   | Auth APlainBad => Ok s (one 500) []
   | Auth ALogin => Ok (set_st s LOGIN) (one 334) []
@@ -187,7 +197,7 @@ Definition step_mail (c : scfg) (s : session) (l : pline) : stepres :=
           let deferred := match h with Allow => false | _ => true end in
           if deferred && negb (should_accept (pol c) (r_domain r)) then Ok s (one 550) []
           else if (max_rcpt c <=? Z.of_nat (length (rcpts s)))%Z then Ok s (one 552) []
-          else Ok {| st := st s; from := from s; rcpts := rcpts s ++ [r]; helo := helo s |} (one 250) []
+          else Ok {| st := st s; from := from s; rcpts := rcpts s ++ [r]; helo := helo s; tls := tls s |} (one 250) []
       end
   | DataC false => Ok s (one 501) []
   | DataC true =>
@@ -286,6 +296,8 @@ Fixpoint entitled (c : scfg) (sender : option origin) (hl : str) (acc : list rec
                       | None => [] end
            else []) ++ entitled c sender hl [] rest
       | B (PBlock _ None _) => entitled c sender hl [] rest
+      | L Starttls =>                                        (* 220: TLS starts, the greeting is due again *)
+          if (first_code r =? 220)%Z then entitled c sender [] acc rest else entitled c sender hl acc rest
       | B PEof | B PIdle => entitled c sender hl acc rest   (* the connection has ended *)
       | _ => entitled c sender hl acc rest
       end
@@ -312,6 +324,8 @@ Fixpoint seq_ok (greeted open_tx : bool) (n : nat) (tr : list (item * list rline
           if (c =? 354)%Z then open_tx && negb (Nat.eqb n 0) && seq_ok greeted open_tx n rest
           else seq_ok greeted open_tx n rest
       | L Rset => if (c =? 250)%Z then seq_ok greeted false 0 rest else seq_ok greeted open_tx n rest
+      | L Starttls =>       (* 220: the connection starts over under TLS - nothing is accepted before a new greeting *)
+          if (c =? 220)%Z then seq_ok false false 0 rest else seq_ok greeted open_tx n rest
       | B _ => seq_ok greeted false 0 rest
       | _ => seq_ok greeted open_tx n rest
       end
